@@ -15,6 +15,7 @@ import (
 
 func transcriptOf(bin, tracePath string) ([]string, bool) {
 	cmd := exec.Command(bin, "replay", "-trace", tracePath, "-transcript", "-known", filepath.Join(verifDir, "known_findings.txt"))
+	cmd.Env = append(os.Environ(), "GOMAXPROCS=1")
 	out, _ := cmd.Output()
 	lines := strings.Split(strings.TrimSpace(string(out)), "\n")
 	var rr runResult
